@@ -237,7 +237,7 @@ float mfuse::LerpAngle(float from, float to, float frac) {
 void mfuse::AngleVectors(const vec3_t angles, vec3_t forward, vec3_t right, vec3_t up)
 {
     float        angle;
-    static float        sr, sp, sy, cr, cp, cy;
+    float        sr, sp, sy, cr, cp, cy;
     // static to help MS compiler fp bugs
 
     angle = angles[YAW] * float(M_PI_FLOAT * 2 / 360);
@@ -273,7 +273,7 @@ void mfuse::AngleVectors(const vec3_t angles, vec3_t forward, vec3_t right, vec3
 void mfuse::AngleVectorsLeft(const vec3_t angles, vec3_t forward, vec3_t left, vec3_t up)
 {
     float        angle;
-    static float        sr, sp, sy, cr, cp, cy;
+    float        sr, sp, sy, cr, cp, cy;
     // static to help MS compiler fp bugs
 
     angle = angles[YAW] * float(M_PI_FLOAT * 2 / 360);
